@@ -401,7 +401,12 @@ class Ctx:
       log("DRIFT property=%s step=%s event=%s" % (self.prop, clause, _brief(ev)))
     if len(self.drift) > 20:
       log("DRIFT ... %d more" % (len(self.drift) - 20))
-    rdir = os.path.join(OUT, "replay", self.prop)
+    rdir = os.path.join(OUT, "replay", self.prop + ("_replayed" if self.replay else ""))
+    flt = getattr(self, "replay_filter", None)
+    if flt is not None:
+      # replay by re-execution: only the recorded clause / site class counts
+      viol = [(ev, cl) for ev, cl in viol if cl == flt[0] and site_of(ev) == flt[1]]
+      log("replay: %d events fail clause %s at site %s on this tree" % (len(viol), flt[0], json.dumps(flt[1], sort_keys=True)))
     seen = {}
     nviol = 0
     for ev, clause in viol:
@@ -413,7 +418,7 @@ class Ctx:
     for n, ((clause, _), evs) in enumerate(sorted(seen.items())):
       path = os.path.join(rdir, "%s_%02d_%s.json" % (self.prop, n, re.sub(r"\W+", "_", clause)))
       with open(path, "w") as f:
-        json.dump({"property": self.prop, "clause": clause, "count": len(evs),
+        json.dump({"property": self.prop, "clause": clause, "count": len(evs), "seed": int(self.seed), "tier": self.tier,
                    "site": site_of(evs[0]), "events": evs[:5]}, f, indent=1)
       log("VIOLATION property=%s replay=%s clause=%s count=%d example=%s"
           % (self.prop, path, clause, len(evs), _brief(evs[0])))
@@ -445,6 +450,19 @@ class Ctx:
            time.time() - self.t0))
     shutil.rmtree(self.work, ignore_errors=True)
     return 1 if viol else 0
+
+
+def rerun_replay(ctx, path, run_fn):
+  """Replay for checks whose cases are regenerated from the seed: re-executes the whole run with the recorded seed and
+  tier and reports (exit 1) iff the recorded clause fails again at the recorded site class."""
+  with open(path) as f:
+    rec = json.load(f)
+  ctx.seed = int(rec.get("seed", ctx.seed))
+  ctx.tier = rec.get("tier", ctx.tier)
+  ctx.quick = ctx.tier == "quick"
+  ctx.replay_filter = (rec["clause"], rec.get("site", {}))
+  log("replay of %s: re-running ./check %s --tier %s with seed %d" % (os.path.basename(path), ctx.prop, ctx.tier, ctx.seed))
+  return run_fn(ctx)
 
 
 def _brief(ev, n=300):
